@@ -495,3 +495,91 @@ func ownIDMeetsAnsweredPeerID(rec *vr.Rec, reps int) {
 		cc.Close()
 	}
 }
+
+// lateResponseAfterExhaustion: every copy of a confirmable request went unanswered until the attempts were used up
+// (housekeeping at virtual times beyond the last retransmission reports the exchange as failed). A response that
+// straggles in after that - piggybacked on an acknowledgement of a copy, or as a separate message - does not turn the
+// failed exchange into a success: when the caller's context ends, the call returns an error.
+func lateResponseAfterExhaustion(rec *vr.Rec, reps int) {
+	for rep := 0; rep < reps; rep++ {
+		maxRetr := 1 + rep%3
+		separate := (rep/3)%2 == 1
+		ackTimeout := time.Hour
+		c := map[string]any{"scenario": "response arrives after all attempts were given up", "max_retransmit": maxRetr, "late_response_separate": separate}
+		s := sim.NewMemSession()
+		var gaveUp atomic.Int32
+		cc := sim.NewUDPConn(s, sim.UDPOpts{Errors: func(error) { gaveUp.Add(1) }, Mutate: func(cfg *udpclient.Config) {
+			cfg.TransmissionAcknowledgeTimeout = ackTimeout
+			cfg.TransmissionMaxRetransmit = uint32(maxRetr)
+		}})
+		type res struct {
+			body []byte
+			err  error
+		}
+		done := make(chan res, 1)
+		ctx, cancel := context.WithCancel(context.Background())
+		go func() {
+			m, err := cc.Get(ctx, "/late")
+			if err != nil {
+				done <- res{nil, err}
+				return
+			}
+			b, _ := m.ReadBody()
+			cc.ReleaseMessage(m)
+			done <- res{b, nil}
+		}()
+		if !s.WaitLen(1, 5*time.Second) {
+			rec.Inconclusive("late response: first copy not seen")
+			cancel()
+			cc.Close()
+			continue
+		}
+		first, _ := ref.ParseUDP(s.Log()[0].Data)
+		hi := time.Now()
+		for k := 1; k <= maxRetr+2; k++ {
+			cc.CheckExpirations(hi.Add(time.Duration(k)*ackTimeout + time.Minute))
+		}
+		copies := 0
+		for _, d := range s.Log() {
+			if m, err := ref.ParseUDP(d.Data); err == nil && m.Type == 0 && m.Code == 1 {
+				copies++
+			}
+		}
+		rec.Eval(fmt.Sprintf("late-response|%d|%v", maxRetr, separate))
+		rec.Count("late_response_cases", 1)
+		early := false
+		select {
+		case r := <-done:
+			// ending the call right at exhaustion is fine too - as long as it is an error
+			early = true
+			if r.err == nil {
+				rec.Violation("C06/exhaustion/call-succeeded", fmt.Sprintf("no copy was ever answered (%d copies), the call returned %q", copies, r.body), c)
+			}
+		default:
+		}
+		if !early {
+			if gaveUp.Load() == 0 {
+				rec.Count("late_response_exhaustion_not_reported", 1)
+			}
+			if separate {
+				_ = cc.Process(nil, ref.EncodeUDP(ref.Msg{Type: 1, Code: 0x45, MID: 51000, Token: first.Token, Payload: []byte("late")}))
+			} else {
+				_ = cc.Process(nil, ref.EncodeUDP(ref.Msg{Type: 2, Code: 0x45, MID: first.MID, Token: first.Token, Payload: []byte("late")}))
+			}
+			time.Sleep(2 * time.Millisecond)
+			cancel()
+			select {
+			case r := <-done:
+				if r.err == nil {
+					rec.Violation("C06/exhaustion/late-response-turns-failure-into-success", fmt.Sprintf("all %d attempts (MAX_RETRANSMIT %d) had been given up when a response arrived; the call then returned it as its result (%q)", copies, maxRetr, r.body), c)
+				} else {
+					rec.Count("late_responses_not_credited", 1)
+				}
+			case <-time.After(6 * time.Second):
+				rec.Violation("C06/exhaustion/call-does-not-return", "context cancelled after exhaustion, no return within 6 s", c)
+			}
+		}
+		cancel()
+		cc.Close()
+	}
+}
